@@ -1,8 +1,8 @@
 CONSTANTS
   MaxN = 3
   MaxDeps = 3
-  Classes = {"ok", "Transport", "ErrorsNoData"}
-  MaxFaults = 3
+  Classes = {"ok", "Transport", "ErrorsNoData", "PartialData", "Non2xxJSON"}
+  MaxFaults = 2
   Ents = {1, 2}
 SPECIFICATION MCSpec
 INVARIANTS TypeOK InstWellFormed NoFabrication Independent SkipJustified ErrorReportedPerFetch ErrorReported DepsSettled
